@@ -200,7 +200,7 @@ func runServerUDP(sr *srvRig, sc srvScenario) {
 
 	for round := 0; round < sc.Rounds; round++ {
 		for m := 0; m < 2; m++ {
-			sps := openSpoofers(sc.LegitIP, v.cp[m], v.cp[m]+1, sc.Listen == "dual", otherIPs(r, sc.NOther, sc.LegitIP))
+			sps := openSpoofers(sc.LegitIP, v.cp[m], v.cpc[m], sc.Listen == "dual", otherIPs(r, sc.NOther, sc.LegitIP))
 			for _, sp := range sps {
 				fam := loopbackFor(sp.IP)
 				if isV6(fam) && sc.Listen != "dual" {
